@@ -207,6 +207,7 @@ func TestReplay(t *testing.T) {
 	}
 	rec := vstat.New(rf.Property, "replay")
 	defer rec.Flush(true)
+	replayT = t // C10 gate replays run in a synctest bubble
 	if msg := replayOne(rf); msg != "" {
 		rec.AddViolation(json.RawMessage(rf.Scenario), rf.Kind, rf.Class, "%s", msg)
 		fmt.Println("REPLAY-FAIL:", msg)
